@@ -577,6 +577,66 @@ fn fam_cfb_raw(ctx: &mut Ctx) {
                         ),
                     }
                 }
+                // (c2) the accepting side: streams made by a key holder that deviate from RFC 9580 5.13.1 in exactly
+                // one element of the construction must be refused (both read modes)
+                if n <= 64 || n % 7 == 0 {
+                    let near_misses: Vec<(&str, Vec<u8>)> = {
+                        let mut v = vec![];
+                        let build = |hdr: [u8; 2], hash_from: usize, hash_hdr: bool| -> Option<Vec<u8>> {
+                            let mut p = prefix.clone();
+                            p.push(prefix[bs - 2]);
+                            p.push(prefix[bs - 1]);
+                            p.extend_from_slice(&pt);
+                            let mut hashed = p[hash_from..].to_vec();
+                            if hash_hdr {
+                                hashed.extend_from_slice(&hdr);
+                            }
+                            let h = rfc::hash(2, &[&hashed])?;
+                            p.extend_from_slice(&hdr);
+                            p.extend(h);
+                            rfc::sym::cfb_encrypt(alg, &key, &vec![0u8; bs], &mut p)?;
+                            Some(p)
+                        };
+                        for (name, hdr, from, hh) in [
+                            ("mdc-tag-octet-d4", [0xD4u8, 0x14u8], 0usize, true),
+                            ("mdc-tag-octet-53", [0x53, 0x14], 0, true),
+                            ("mdc-length-octet-13", [0xD3, 0x13], 0, true),
+                            ("mdc-length-octet-00", [0xD3, 0x00], 0, true),
+                            ("digest-without-mdc-header", [0xD3, 0x14], 0, false),
+                            ("digest-without-prefix", [0xD3, 0x14], bs + 2, true),
+                            ("digest-without-prefix-repeat", [0xD3, 0x14], 2, true),
+                        ] {
+                            if let Some(c) = build(hdr, from, hh) {
+                                v.push((name, c));
+                            }
+                        }
+                        v
+                    };
+                    for (name, ct) in near_misses {
+                        if rfc::sym::seipd_v1_decrypt(alg, &key, &ct).is_ok() {
+                            ctx.inconclusive("reference accepts its own near miss");
+                            continue;
+                        }
+                        for (mi, mode) in [Seipdv1ReadMode::default(), Seipdv1ReadMode::Streaming].into_iter().enumerate() {
+                            cov(ctx, "seipd1-raw", alg, 0, 0, 0, 0, "near-miss", &lc, "ref->lib");
+                            let r = lib(ctx, "C12/seipd1/raw", &rp, || {
+                                a.stream_decryptor_protected(mode, &key, &ct[..]).map_err(|e| e.to_string()).and_then(|mut d| {
+                                    let mut out = vec![];
+                                    d.read_to_end(&mut out).map_err(|e| e.to_string())?;
+                                    Ok(out)
+                                })
+                            });
+                            ctx.seen("seipd1.near-miss", name);
+                            if let Some(Ok(_)) = r {
+                                ctx.violation(
+                                    format!("C12/seipd1/raw/accepts-non-rfc-stream/{name}"),
+                                    format!("the library's SEIPDv1 decryptor (alg {alg}, len {n}, mode {mi}) read a stream to a clean end that is not an RFC 9580 5.13.1 stream: {name}"),
+                                    json!({"base": rp, "deviation": name, "ciphertext": hexs(&ct)}),
+                                );
+                            }
+                        }
+                    }
+                }
                 // (d) SED (tag 9, resynchronising CFB)
                 let want_sed = rfc::sym::sed_encrypt(alg, &key, &prefix, &pt).expect("ref sed");
                 cov(ctx, "sed-raw", alg, 0, 0, 0, 0, "-", &lc, "lib->ref");
